@@ -31,6 +31,14 @@ sys.path.insert(0, os.path.join(VERIF, "lib"))
 import specs  # noqa: E402
 
 BASE_DEFS = ["-DNDEBUG", "-DREPROC_MULTITHREADED", "-DREPROC_VERIF"]
+
+
+def base_defs(spec):
+    """The baseline configuration, minus what the harness asks to leave undefined
+    (`undef`: e.g. REPROC_MULTITHREADED for the single-threaded variant)."""
+    return [d for d in BASE_DEFS if d[2:] not in spec.get("undef", [])]
+
+
 CHECK_FLAGS = [
     "--bounds-check", "--pointer-check", "--pointer-overflow-check",
     "--signed-overflow-check", "--undefined-shift-check",
@@ -186,7 +194,7 @@ def build_harness(spec, tier, extra_defs=(), keep=False, native=False):
     incs = ["-I" + SRC, "-I" + os.path.join(REPO, "reproc", "include"),
             "-I" + os.path.join(VERIF, "os"), "-I" + os.path.join(VERIF, "contracts"),
             "-I" + os.path.join(VERIF, "harness")]
-    defs = list(BASE_DEFS) + spec_defs(spec, tier) + list(extra_defs)
+    defs = base_defs(spec) + spec_defs(spec, tier) + list(extra_defs)
     pre = []
     if win:
         incs = ["-I" + os.path.join(VERIF, "stubs", "win")] + incs
@@ -210,7 +218,7 @@ def build_harness(spec, tier, extra_defs=(), keep=False, native=False):
         # snapshots for OLD), checked by plain CBMC without DFCC's write-set
         # instrumentation; the frame is asserted explicitly by the harness.
         import native as nat
-        nat.gen_includes(spec, d, list(BASE_DEFS) + spec_defs(spec, tier) + list(extra_defs), incs, cbmc=True)
+        nat.gen_includes(spec, d, base_defs(spec) + spec_defs(spec, tier) + list(extra_defs), incs, cbmc=True)
     units = [(os.path.join(VERIF, "harness", spec["src"]), spec.get("contracts", []))]
     for t in specs.tus_of(spec):
         units.append((os.path.join(SRC, t), spec.get("tu_contracts", ["public.h"])))
